@@ -147,7 +147,7 @@ func (w *World) spawn(token string, sc *Script, ppid, pgid int, newGroup bool, s
 			w.Stats.HeldPipes++
 		}
 		cp := w.spawn(fmt.Sprintf("%s/c%d", token, i), c, p.Pid, p.Pgid, c.NewGroup, so, se)
-		simlog.Add(simlog.Event{Kind: "os.fork", Subj: token, Pid: cp.Pid, N: p.Pid, A: fmt.Sprintf("pgid=%d holds_pipes=%v", cp.Pgid, c.HoldsPipes)})
+		simlog.Add(simlog.Event{Kind: "os.fork", Subj: token, Pid: cp.Pid, N: p.Pid, A: fmt.Sprintf("pgid=%d holds_pipes=%v", cp.Pgid, c.HoldsPipes), B: cp.Token})
 	}
 	simsync.GoNamed("proc:"+token, func() { w.life(p) })
 	return p
